@@ -695,7 +695,7 @@ class TensorReference(Reference):
             coords[..., self.ref1.ndims:] = self.ref2.vertices[:, _]
         else:
             raise NotImplementedError
-        return points.CoordsPoints(coords.reshape(self.nverts, self.ndims))
+        return points.CoordsPoints(types.arraydata(coords.reshape(self.nverts, self.ndims)))
 
     @cached_property
     def edge_transforms(self):
